@@ -23,6 +23,7 @@ func init() {
 		Level: "model_checking",
 		Rule: "bounded exhaustive enumeration of the valid-frame language through the specification encoder: (V) the C01 packet strata S0-S3 (value deviations <=2 quick / <=3 thorough) in the long form; (P) property order — every permutation of every subset of <=4 (quick) / <=5 (thorough) single-valued properties allowed for the packet (and for the will), and for the full property set every adjacent transposition, rotation and the reversal, with user properties / subscription identifiers interleaved at every position; " +
 			"(Z) every property whose zero value is legal on the wire transmitted explicitly, singly and in pairs; (F) every legal short form (PUBACK family remaining length 2, 3, 4, longer; DISCONNECT 0, 1, 2+; AUTH 0, 2+) crossed with reason codes; (E) user-name/password flags with empty values. " +
+			"Every frame of V is also decoded a second time after the caller changed the packet returned by the first decode through its setters. " +
 			"Every frame is first validated by the strict specification decoder (generator self-check), then given to ReadPacket: it must return a packet of the matching type without error whose accessors, observed through the public API, equal the abstract packet. " +
 			"distinct_nontrivial = distinct frames (by content hash) that carry at least one property or optional field.",
 		Assumptions: []string{
